@@ -225,3 +225,72 @@ def xml_mutate(rng, doc):
         k = rng.range(1, 60)
         return b[:s] + b"<p>" * k + b[s:e] + b"</p>" * k + b[e:]              # wrap deeper (may be invalid for the DTD: not checked by the library)
     return b + rng.choice([b"<x/>", b"\n\n", b"\x00", b"<!-- -->"])
+
+
+def _rows(tables, idx):
+    """rows of table number idx of the tables dump (-1 / None: no such table)"""
+    if idx is None or idx < 0:
+        return []
+    return tables["tables"].get(str(idx), {}).get("rows", [])
+
+
+def typed_payload_docs(rng, tables, typed, per_elem=10):
+    """WBXML documents that put arbitrary OPAQUE / inline payloads into every element and attribute the library decodes in a
+    typed way (WV integers and date-times, SI/EMN date attributes, base64 / MIME content), from the behavioural probe of the
+    current tree (vlib/gen_hardwired.probe()['dec']).  Payload shapes aim at the decoders' field boundaries: lengths 0..9,
+    all bits set (reserved bits too), all zero, BCD digits / non-digits, and random bytes.  Returns (bytes, forced lang)."""
+    langs = {l["id"]: l for l in tables["langs"]}
+    out = []
+    def payloads():
+        ps = [b"", b"\xff" * 6, b"\x00" * 6, b"\xff" * 4, b"\xff" * 5, b"\x7f\xff\xff\xff\xff\xff", b"\xbf\xff\xff\xff\xff\x5a",
+              bytes([0x20, 0x01, 0x09, 0x25, 0x13, 0x40, 0x45]), bytes([0x9a, 0xbc, 0xde, 0xf0]), b"\xff" * 9, b"\x01" * 1]
+        while len(ps) < per_elem + 6:
+            ps.append(rng.bytes(rng.range(1, 10)))
+        return ps
+    for e in typed:
+        l = langs.get(e["lang"])
+        if l is None:
+            continue
+        pub = l.get("pub_num") or 0
+        hdr = bytes([3]) + (mb(pub) if pub and pub != 1 else b"\x01") + b"\x6a\x00"
+        forced = 0 if (pub and pub != 1) else e["lang"]
+        sw = (b"\x00" + bytes([e["page"]])) if e["page"] else b""
+        for pl in payloads():
+            opq = b"\xc3" + mb(len(pl)) + pl
+            if e["where"] in ("content", "contentany"):
+                body = sw + bytes([0x40 | e["tok"]]) + opq + b"\x01"
+                out.append((hdr + body, forced))
+                # the same payload as an inline string (no NUL inside) and after another content item
+                if pl and 0 not in pl:
+                    out.append((hdr + sw + bytes([0x40 | e["tok"]]) + b"\x03" + pl + b"\x00\x01", forced))
+                out.append((hdr + sw + bytes([0x40 | e["tok"]]) + b"\x03a\x00" + opq + b"\x01", forced))
+            else:
+                # typed attribute: any element of page 0 with attributes, attribute start = the probed token
+                trows = _rows(tables, l.get("tags"))
+                tag = next((t for t in trows if t[1] == 0), None)
+                tt = tag[2] if tag else 5
+                body = bytes([0x80 | tt]) + sw + bytes([e["tok"]]) + opq + b"\x01"
+                out.append((hdr + body, forced))
+                out.append((hdr + bytes([0xc0 | tt]) + sw + bytes([e["tok"]]) + b"\x03x\x00" + opq + b"\x01\x01", forced))
+    return out
+
+
+def attr_extension_docs(tables):
+    """attribute lists and PIs whose value items include valueless / reserved tokens after an ordinary value: EXT_0..2,
+    EXT_I/EXT_T forms, ENTITY, STR_T with no table, LITERAL — for every language (forced), WML by its public id too."""
+    out = []
+    items = [b"\xc0", b"\xc1", b"\xc2", b"\x40a\x00", b"\x41a\x00", b"\x42a\x00", b"\x80\x00", b"\x81\x00", b"\x82\x05",
+             b"\x02\x41", b"\x83\x00", b"\xc3\x01a", b"\x04\x00"]
+    for l in tables["langs"]:
+        tags = [t for t in _rows(tables, l.get("tags")) if t[1] == 0]
+        attrs = [a for a in _rows(tables, l.get("attrs")) if a[2] == 0]
+        tt = tags[0][2] if tags else 5
+        at = attrs[0][3] if attrs else 5
+        pub = l.get("pub_num") or 0
+        hdr = bytes([3]) + (mb(pub) if pub and pub != 1 else b"\x01") + b"\x6a\x00"
+        forced = 0 if (pub and pub != 1) else l["id"]
+        for it in items:
+            for pre in (b"", b"\x03a\x00", b"\x03a\x00\x03b\x00"):
+                out.append((hdr + bytes([0x80 | tt, at]) + pre + it + b"\x01", forced))                     # <t a="pre it"/>
+                out.append((hdr + bytes([0x40 | tt]) + b"\x43" + bytes([at]) + pre + it + b"\x01\x01", forced))   # <t><?a pre it?></t>
+    return out
